@@ -335,3 +335,81 @@ def pruning_with_parallel_edges(tier, rng, rep):
         rep.case(key=repr(d), nontrivial=par, sample=inp if ci == 400 else None)
         if len(rep.failures) >= 3:
             return
+
+
+@bounded(P, "multiples_along_histories", functions=[A + "FSA.automaton_multiple", A + "FSA.even_automaton", A + "FSA.recurrent", A + "FSA.rename_generators", A + "FSA.delete_vertex", A + "FSA.add_edges"],
+         note="the k-multiple is requested repeatedly on the SAME automaton object with in-place changes in between (relabelling, pruning, deleting a vertex, adding an edge), and on the "
+              "recurrent copy of an automaton whose multiple was already computed: each answer is the k-multiple of the automaton as it is at that moment")
+def multiples_along_histories(tier, rng, rep):
+    N = 400 if tier == 'thorough' else 80
+    rep.rule = f"{N} random automata on 2..4 states over {{a,b}} (plus a dead-end state); k in 1..3; histories of 2..4 in-place operations, the k-multiple checked after every step against the set model (all words to length 4)"
+    rep.bound = f"{N} automata x 3 k"
+    labels = ["a", "b"]
+    for t in range(N):
+        n = int(rng.integers(2, 5))
+        d = {s: {} for s in range(n + 1)}
+        for s in range(n):
+            for l in labels:
+                if rng.random() < 0.8:
+                    d[s][l] = int(rng.integers(0, n + 1))
+        inp = {"graph_dict": {str(k_): v for k_, v in d.items()}}
+
+        def check_multiples(F, M, stage, ks=(1, 2, 3)):
+            labs = sorted({l for (_, l, _) in M.E}) or ["a"]
+            s0 = F.start_vertices[0]
+            for k in ks:
+                Fk = F.automaton_multiple(k) if (k != 2 or t % 2) else F.even_automaton()
+                for nn in range(0, 5):
+                    if nn % k:
+                        continue
+                    for w in itertools.product(labs, repeat=nn):
+                        acc = s0 in M.V and M.follow(s0, w) is not None
+                        blocks = tuple("".join(w[i:i + k]) for i in range(0, nn, k))
+                        if Fk.accepts(blocks) != acc:
+                            rep.fail("multiple_accepts_exactly_words_of_length_multiple_of_k", f"{stage}: k={k}, word {''.join(w)!r}: the automaton accepts={acc}, its k-multiple accepts={not acc}", {**inp, "stage": stage, "k": k, "word": "".join(w)})
+                            return False
+            return True
+
+        def body():
+            F = fsa.FSA(copy.deepcopy(d), [0])
+            M = Model.from_graph_dict(d)
+            if not check_multiples(F, M, "fresh automaton"):
+                return
+            # the recurrent copy of an automaton whose multiples were already computed
+            R = F.recurrent()
+            keep = M.recurrent_vertices()
+            Mr = Model(keep, {e for e in M.E if e[0] in keep and e[2] in keep})
+            if 0 in keep and not check_multiples(R, Mr, "recurrent() copy after the multiples of the original were computed"):
+                return
+            hist = []
+            for _ in range(int(rng.integers(2, 5))):
+                op = str(rng.choice(["rename_swap", "recurrent_inplace", "delete_vertex", "add_edge"]))
+                if op == "rename_swap":
+                    mp = {"a": "b", "b": "a"}
+                    F.rename_generators(mp); M.rename(mp)
+                elif op == "recurrent_inplace":
+                    F.recurrent(inplace=True)
+                    for v in list(M.V - M.recurrent_vertices()):
+                        M.delete_vertex(v)
+                elif op == "delete_vertex":
+                    cand = [v for v in sorted(M.V) if v != 0]
+                    if not cand:
+                        continue
+                    v = cand[int(rng.integers(0, len(cand)))]
+                    F.delete_vertex(v); M.delete_vertex(v)
+                else:
+                    free = [(v, l) for v in sorted(M.V) for l in labels if M.step(v, l) is None]
+                    if not free:
+                        continue
+                    v, l = free[int(rng.integers(0, len(free)))]
+                    w_ = sorted(M.V)[int(rng.integers(0, len(M.V)))]
+                    F.add_edges([(v, w_, l)]); M.add_edge(v, w_, l)
+                hist.append(op)
+                if 0 not in M.V:
+                    return
+                if not check_multiples(F, M, "after " + ", ".join(hist)):
+                    return
+        rep.attempt("operations_run", inp, body)
+        rep.case(key=(t,), nontrivial=True, sample=inp if t == 0 else None)
+        if len(rep.failures) >= 3:
+            return
